@@ -13,7 +13,7 @@ package casper
 //verif:outside how statuses and heights evolve (Casper.ApplyBlock / AuthVerification: C16, C17), makeTree, persistence of checkpoints
 //verif:obligation fn=VerifC11BestNode args=1;2;3;4 loops=5000 validate=12
 //verif:obligation fn=VerifC11BestNode args=5 loops=5000 tier=thorough secs=3000 paths=2000000
-//verif:obligation fn=VerifC11HashOrder args=1;2;4 loops=5000 validate=12
+//verif:obligation fn=VerifC11HashOrder args=1;2;4 loops=5000 validate=12 timeout=300000
 
 import (
 	"github.com/bytom/bytom/protocol/bc"
